@@ -19,6 +19,7 @@ RULE = (
     "plus: 1-3 functions added with register_insert_function (single- and multi-block bodies, some called from "
     "patches inserted in the same rewrite) to modules with zero to three functions and with empty or absent "
     "function tables, judged directly on functionBlocks / functionEntries / functionNames"
+    "; two or three insertions at one place of a function's block, the first ending in data"
 )
 ASSUMPTIONS = [
     "a block kept as a zero-sized block (nowhere to move its symbols or edges) keeps its function and entry role",
